@@ -59,7 +59,8 @@ Record value := mkValue {
   v_key : name;          (* key in the state vector *)
   v_isval : bool;        (* isinstance(v, dawgie.Value) *)
   v_ver : ver3;
-  v_pick : bool          (* pickle.loads(pickle.dumps(v)) works *)
+  v_pick : bool;         (* pickle.loads(pickle.dumps(v)) works *)
+  v_feat : bool          (* features() overridden -- no rule can observe it *)
 }.
 
 Record svec := mkSv {
@@ -535,7 +536,7 @@ Definition gate_pinned (E : engine) : bool :=
 (* ------------------------------------------------------ smoke examples *)
 Module GateExamples.
   Definition n (l : list nat) : name := l.
-  Definition V := mkValue [118] true VerOk true.                      (* 'v' *)
+  Definition V := mkValue [118] true VerOk true true.                      (* 'v' *)
   Definition SV := mkSv true (Some [115;118]) VerOk [V] true.         (* 'sv' *)
   Definition R_up : ref :=
     mkRef LSv (Some (0, KTask)) true 0 [117;112] [mkItem [115;118] [[118]]] true
